@@ -76,6 +76,9 @@ impl BBSplusPublicKey {
     fn from_bytes_uncompressed(bytes: &[u8; G2Affine::UNCOMPRESSED_BYTES]) -> Result<Self, Error> {
         let g2 =
             parse_g2_projective_uncompressed(bytes).map_err(|_| Error::KeyDeserializationError)?;
+        if g2 == G2Projective::IDENTITY {
+            return Err(Error::KeyDeserializationError);
+        }
         Ok(Self(g2))
     }
 
@@ -105,6 +108,9 @@ impl BBSplusPublicKey {
         }
         let g2 = parse_g2_projective_compressed(&bytes[0..G2Affine::COMPRESSED_BYTES])
             .map_err(|_| Error::KeyDeserializationError)?;
+        if g2 == G2Projective::IDENTITY {
+            return Err(Error::KeyDeserializationError);
+        }
         Ok(Self(g2))
     }
 }
